@@ -67,6 +67,11 @@ def run_rules(prop, ctx):
     mod = rules_module(prop)
     rec = report.Recorder(prop)
     mod.run(ctx, rec)
+    if os.environ.get('PSA_DEBUG'):
+        for o in rec.failed:
+            print('  DEBUG-FAILED %s %s at %s:%s\n     expected: %s\n'
+                  '     found: %s' % (o.rule, o.construct, o.file, o.line,
+                                     o.expected, o.found))
     rec.check_floors()
     return rec, mod
 
